@@ -18,7 +18,7 @@ def main():
     jobs = []
     for d in sorted(os.listdir(sd)):
         patch = os.path.join(sd, d, "patch.diff")
-        if os.path.exists(patch):
+        if os.path.exists(patch) and (len(sys.argv) < 2 or sys.argv[1] in d):      # optional substring filter, e.g. "-r10-"
             jobs.append({"id": d, "prop": d.split("-")[0], "props": props, "patch": patch})
     with ProcessPoolExecutor(max_workers=16) as ex:
         results = list(ex.map(run_variant, jobs))
